@@ -92,7 +92,7 @@ func c06Gen(tier string, rng *rand.Rand, emit func(Case)) {
 				if !c.ClientOnly && !c.NeedsCtx {
 					emit(Case{Line: "pkg rt " + k + " " + fields, Kind: "rt:" + k})
 				}
-				if c.SpecDec != nil {
+				if c.SpecDec != nil || c.SpecDecCtx != nil {
 					emit(Case{Line: "pkg specdec " + k + " " + fields, Kind: "specdec:" + k})
 				}
 			}
@@ -313,7 +313,7 @@ func c10Impl(line string) string {
 }
 
 // tokens LookupPackage knows but whose codec group (fields/formats/rows) is registered separately
-var pendingTokens = map[byte]bool{0x22: true, 0xa9: true, 0xd1: true, 0xd7: true, 0xec: true, 0x20: true, 0xee: true, 0x61: true}
+var pendingTokens = map[byte]bool{}
 
 func c10Oracle(line, out string) string {
 	if out == "panic" {
